@@ -7,41 +7,130 @@ COMMON_ASSUME = [
     "strings have a concrete length per job; every byte is an unconstrained symbolic 8-bit value unless the harness states otherwise",
     "package-level variables of klog are immutable after initialisation (initialisers are run once, concretely)",
     "SMT verdicts are z3 4.8.12's; any (error line or unknown makes the obligation undecided (never counted as success)",
+    "the engine's term simplifier (interval analysis, narrowing, linear div/rem rules) is validated by setup_cmd's self-test: random expressions under random path constraints, simplified vs. unsimplified, proven equal by z3",
 ]
 
 MODELS = {
-    "regexp": "regexp.* : pattern compiled by Go's regexp/syntax to the real syntax.Prog, executed by the engine's leftmost-first backtracking matcher over symbolic runes",
+    "regexp": "regexp.*: pattern compiled by Go's regexp/syntax to the real syntax.Prog, executed by the engine's leftmost-first backtracking matcher over symbolic runes",
     "fmt": "fmt.Sprintf/Sprint for %d %v %s %c with flags 0,- and width (digits of symbolic integers by div/mod, forking on digit count)",
     "bytealg": "internal/bytealg Index*/Count*/Equal/Compare (assembly) as direct definitions over byte vectors",
     "builder": "strings.Builder (unsafe) as a byte vector; strings.Repeat/ToLower/ToUpper (ASCII exact)",
-    "utf8": "range-over-string / []rune / utf8.Decode* : engine decoder forking on the UTF-8 encoding class",
+    "utf8": "range-over-string / []rune / utf8.Decode*: engine decoder forking on the UTF-8 encoding class",
     "itoa": "strconv.Itoa via the same digit generator as %d",
     "sort": "sort.Slice: real pdqsort_func SSA with an engine swapper",
+    "json": "(*encoding/json.Encoder).Encode: opaque codec that records the value tree handed to it; the JSON text is not modelled",
+    "tabulate": "wide mul/div/rem nodes over small-domain variables are replaced by exact lookup tables computed by the engine's evaluator (after case-splitting the other variables where the job allows it)",
 }
 
 
 def job(h, pkg=K, **params):
-    return {"harness": pkg + "." + h, "params": params}
+    j = {"harness": pkg + "." + h, "params": {}}
+    for k, v in params.items():
+        if k == "_split":
+            j["max_split"] = v
+        elif k == "_paths":
+            j["max_paths"] = v
+        else:
+            j["params"][k] = v
+    return j
 
 
+# ---------------------------------------------------------------- C16
 def c16_jobs(tier):
     js = []
-    maxn = 9 if tier == "quick" else 10
-    for n in range(0, maxn + 1):
+    for n in range(0, (9 if tier == "quick" else 10) + 1):
         js.append(job("ZZ_C16_TimeAccept", n=n))
-    for h in ["ZZ_C16_TimeRoundtrip", "ZZ_C16_TimePlus", "ZZ_C16_Range", "ZZ_C16_DurationRoundtrip"]:
+    for h in ["ZZ_C16_TimeRoundtrip", "ZZ_C16_TimePlus", "ZZ_C16_Range", "ZZ_C16_Equivalences",
+              "ZZ_C16_DurationRoundtrip", "ZZ_C16_DurationArith", "ZZ_C16_DurationCanonical"]:
         js.append(job(h))
     for n in range(0, (6 if tier == "quick" else 8) + 1):
         js.append(job("ZZ_C16_DurationAccept", n=n))
+    for n in ([9, 11] if tier == "quick" else [0, 1, 5, 8, 9, 11, 12]):
+        js.append(job("ZZ_C16_DateAccept", n=n))
+    windows = [0, 3, 19, 20, 99] if tier == "quick" else list(range(100))
+    for c in windows:
+        js.append(job("ZZ_C16_DateAccept", n=10, century=c, _split=65536))
+        js.append(job("ZZ_C16_DateRoundtrip", century=c, _split=65536))
+    return js
+
+
+# ---------------------------------------------------------------- C06
+U = K + "/app/cli/util"
+
+
+def c06_jobs(tier):
+    js = []
+    for n in range(0, (5 if tier == "quick" else 7) + 1):
+        js.append(job("ZZ_C06_TotalShort", U, n=n))
+    for p in range(5):
+        js.append(job("ZZ_C06_TotalTail", U, n=(3 if tier == "quick" else 5), prefix=p))
+    dn = 12 if tier == "quick" else 19
+    for shape in [0, 1, 2, 3, 5]:
+        js.append(job("ZZ_C06_Digits", U, n=dn, shape=shape))
+    if tier == "thorough":
+        js.append(job("ZZ_C06_Digits", U, n=20, shape=0))
+        js.append(job("ZZ_C06_Digits", U, n=20, shape=2))
+    js.append(job("ZZ_C06_Digits", U, n=4, shape=4))
+    js.append(job("ZZ_C06_EvalTotal", U))
+    return js
+
+
+# ---------------------------------------------------------------- C08
+E = K + "/parser/engine"
+
+
+def c08_jobs(tier):
+    return [job("ZZ_C08_Lossless", E, n=n) for n in range(0, (5 if tier == "quick" else 7) + 1)]
+
+
+# ---------------------------------------------------------------- C02
+S = K + "/service"
+
+
+def c02_jobs(tier):
+    js = [job("ZZ_C02_EvalNow", S)]
+    shapes = [(1, 1), (1, 2), (2, 1)] if tier == "quick" else [(1, 1), (1, 2), (2, 1), (1, 3), (3, 1), (2, 2)]
+    for nrec, nent in shapes:
+        js.append(job("ZZ_C02_Eval", S, nrec=nrec, nent=nent))
     return js
 
 
 CHECKS = {
     "C16": {
         "jobs": c16_jobs,
-        "bounds": {"quick": "time literals: all byte strings of length 0..9", "thorough": "all byte strings of length 0..10"},
-        "outside": "strings longer than the bound",
-        "stubs": [MODELS["regexp"], MODELS["fmt"], MODELS["utf8"]],
+        "bounds": {
+            "quick": "time literals: every byte string of length 0..9; durations: every byte string of length 0..6 plus all values -100000..100000 min x notation flags; dates: every 10-byte string with years in century windows {00,03,19,20,99} and all strings of length 9 and 11; all (hour,minute,shift,clock) times x durations -3000..3000; all time pairs",
+            "thorough": "as quick with time strings up to 10 bytes, duration strings up to 8 bytes, all 100 century windows (years 0000-9999)",
+        },
+        "outside": "longer strings; duration numbers beyond 7 digits (panic-freedom of those is C06)",
+        "stubs": [MODELS["regexp"], MODELS["fmt"], MODELS["utf8"], MODELS["bytealg"], MODELS["tabulate"]],
+        "assumptions": COMMON_ASSUME + ["reference recognisers and denotations are written from Specification.md (time, duration, date sections) in the harness; `<` with `>` rejected, 24:00 folding, 12h conversion"],
+    },
+    "C06": {
+        "jobs": c06_jobs,
+        "bounds": {
+            "quick": "every byte string of length 0..5 as a whole file; 5 valid prefixes + every 3-byte tail; digit-run templates with 12 symbolic digits (duration, negative duration, should-total, hours+minutes, two entries); arbitrary int64 entry values in evaluation",
+            "thorough": "every byte string up to 7 bytes; tails up to 5 bytes; digit runs of 19 and 20 symbolic digits",
+        },
+        "outside": "longer arbitrary inputs than the bound (except through the templates); memory exhaustion; very long lines; the JSON text encoder (stub); decimal rendering of the huge numbers in the digit templates",
+        "stubs": [MODELS["regexp"], MODELS["fmt"], MODELS["utf8"], MODELS["bytealg"], MODELS["builder"], MODELS["json"], MODELS["sort"]],
+        "assumptions": COMMON_ASSUME + ["termination is checked against a step budget of 5e6 SSA instructions per path"],
+    },
+    "C08": {
+        "jobs": c08_jobs,
+        "bounds": {"quick": "every byte string of length 0..5", "thorough": "every byte string of length 0..7"},
+        "outside": "longer texts; the no-op reconcile composition is covered by the C03 harness family",
+        "stubs": [MODELS["utf8"], MODELS["bytealg"]],
+        "assumptions": COMMON_ASSUME + ["the line/block layer is generic in the record parser: it is instantiated with a ParseOne that accepts every block"],
+    },
+    "C02": {
+        "jobs": c02_jobs,
+        "bounds": {
+            "quick": "record/entry shapes (records x entries per record) {1x1,1x2,2x1}, every entry kind per slot, should-total present or not; all durations in [-1e9,1e9], all valid (hour,minute,shift) time pairs; --now at every minute of 2020-03-01 against records dated -2..+1 days",
+            "thorough": "shapes up to 3 records / 3 entries",
+        },
+        "outside": "more records/entries per evaluation than the bound (the sum is a fold: each step is covered); |minutes| > 1e9 (overflow is C06)",
+        "stubs": [MODELS["tabulate"]],
         "assumptions": COMMON_ASSUME,
     },
 }
